@@ -96,8 +96,8 @@ function genScopeNodes(rng, depth, inComp, stats) {
       const renameItem = rng.bool(0.5)
       const item = renameItem ? rng.pick(NAMES) : undefined
       let index = rng.bool(0.5) ? rng.pick(NAMES) : undefined
-      if ((index ?? 'index') === (item ?? 'item')) index = index === undefined ? undefined : (item ?? 'item') === 'b' ? 'x' : 'b'
-      if ((index ?? 'index') === (item ?? 'item')) { nodes.push(...probesFor(rng)); continue }
+      // the same name for item and index is legal: `index` is introduced after `item`, so it wins (kept in half of the collisions)
+      if ((index ?? 'index') === (item ?? 'item') && rng.bool(0.5)) index = index === undefined ? undefined : (item ?? 'item') === 'b' ? 'x' : 'b'
       const body = genScopeNodes(rng, depth - 1, false, stats)
       const cond = rng.bool(0.2) ? M.ev(X.id(rng.pick(NAMES))) : null
       const wrapper = rng.bool(0.5) ? { t: 'block', children: body } : { t: 'el', tag: 'w', attrs: [{ fam: 'plain', name: 'v', value: M.ev(X.id(rng.pick(NAMES))) }], children: body }
@@ -120,6 +120,14 @@ export function genCase(rng) {
   const stats = { fors: 0, trefs: 0 }
   const modName = rng.bool(0.5) ? rng.pick(['m', 'a', 'item', 'index']) : null
   const wxs = modName ? [{ module: modName, code: `module.exports = "M:${modName}"` }] : []
+  // a second module loaded by `src`, declared after (or before) the inline one: each name keeps its own module
+  const scripts = {}
+  if (rng.bool(0.4)) {
+    const extName = rng.pick(['e', 'b', 'index', 'm'].filter((x) => x !== modName))
+    scripts['s/ext'] = `module.exports = "X:${extName}"`
+    const decl = { module: extName, src: rng.pick(['/s/ext', './s/ext.wxs', 's/ext']) }
+    if (rng.bool(0.7)) wxs.push(decl); else wxs.unshift(decl)
+  }
   const defs = [{ name: 't1', children: probesFor(rng) }]
   let children = genScopeNodes(rng, 3, false, stats)
   // slot-value scopes: direct children of the dynamic-slots component
@@ -132,10 +140,12 @@ export function genCase(rng) {
       if (rng.bool(0.6)) slotVals.push({ name: 'b-c', as: rng.bool(0.3) ? undefined : rng.pick(NAMES.filter((x) => !slotVals.some((s) => (s.as ?? M.dashToCamel(s.name)) === x))) })
       kids.push({ t: 'el', tag: 'h', attrs: [{ fam: 'plain', name: 'v', value: M.ev(X.id(rng.pick(NAMES))) }, { fam: 'plain', name: 'w', value: M.ev(X.id('bC')) }], slotVals, children: genScopeNodes(rng, 2, true, stats) })
     }
-    children = [...children, { t: 'el', tag: 'comp', attrs: [], children: kids }, ...probesFor(rng)]
+    // (`slot:` values are documented for direct children of the component only; nested receivers are left to C01's structure soup)
+    const compKids = kids
+    children = [...children, { t: 'el', tag: 'comp', attrs: [], children: compKids }, ...probesFor(rng)]
   }
   const file = { path: 'p', imports: [], wxs, defs, children }
-  return { fs: { files: { p: file }, scripts: {}, main: 'p' }, withComp, stats }
+  return { fs: { files: { p: file }, scripts, main: 'p' }, withComp, stats }
 }
 
 const CHILD_SRC = '<slot a="{{sa}}" b-c="{{sb}}"/>'
@@ -149,7 +159,7 @@ export function judge(ctx, c, res, childGroups) {
   const bad = allDiags(res).filter((d) => d.level >= LEVEL.Warn)
   if (bad.length) { viol(`documented syntax produced diagnostic "${bad[0].kind}"`, { diags: bad }); return }
   const D = makeData()
-  const want = new Renderer({ files: c.fs.files, scripts: {} }, { slotValues: SLOT_VALUES }).renderMain('p', D)
+  const want = new Renderer({ files: c.fs.files, scripts: c.fs.scripts || {} }, { slotValues: SLOT_VALUES }).renderMain('p', D)
   const space = new ge.ComponentSpace()
   let using = {}
   if (c.withComp) {
@@ -206,7 +216,7 @@ export async function run(ctx) {
   const cases = makeCases(ctx, N)
   for (let i = 0; i < cases.length; i += 400) {
     const batch = cases.slice(i, i + 400)
-    const results = compileMany(batch.map((c) => ({ id: c.id, files: c.sources, scripts: [] })))
+    const results = compileMany(batch.map((c) => ({ id: c.id, files: c.sources, scripts: Object.entries(c.fs.scripts || {}) })))
     for (const c of batch) {
       judge(ctx, c, results.get(c.id), childGroups)
       coverage(report, c.fs.files.p)
@@ -218,5 +228,5 @@ export async function run(ctx) {
 
 export async function replay(ctx) {
   const childGroups = evalGroups(compileMany([{ id: 'child', files: [['child', CHILD_SRC]], scripts: [] }]).get('child').groups)
-  for (const c of makeCases(ctx, 1, [ctx.replay.witness.caseSeed])) judge(ctx, c, compileMany([{ id: c.id, files: c.sources, scripts: [] }]).get(c.id), childGroups)
+  for (const c of makeCases(ctx, 1, [ctx.replay.witness.caseSeed])) judge(ctx, c, compileMany([{ id: c.id, files: c.sources, scripts: Object.entries(c.fs.scripts || {}) }]).get(c.id), childGroups)
 }
